@@ -407,6 +407,51 @@ def rule_m6(F):
     return out
 
 
+def rule_m8(F):
+    """Each operation takes effect on the list it is applied to: `concat` (`+`) yields a NEW list - a handle of fresh storage made
+    inside the function - on every path; it never hands back a clone of one of its operands (an `Arc` clone: the 'result' shares
+    storage and lock with the operand, so threads that each build a private list with `base + extra` push into `base` and into each
+    other's lists).  Every value returned by ErasedList::concat comes out of a constructor call of the function, none out of `clone`
+    of a parameter."""
+    r = RuleResult("C16.M8", "concat returns a freshly made list on every path (never an Arc clone of an operand)", floor=1)
+    ps = [p for p in F.paths() if p.startswith("value::list::ErasedList::") and hir.last(p) == "concat"]
+    if not ps:
+        r.missing("value::list::ErasedList::concat")
+        return r
+    b = F.body(ps[0])
+    defs = mir.Defs(b)
+    argc = b.mir["argc"]
+    n = 0
+    for d in defs.defs.get(0, []):
+        n += 1
+        srcs = set()
+        if d[2] == "call":
+            srcs = {d[0]}
+        else:
+            for x in mir.rv_locals(d[3]["rv"]):
+                srcs |= mir.back_calls(b, defs, x)
+                srcs |= {y[0] for y in defs.whole_defs(x) if y[2] == "call"}
+        makers, aliases = [], []
+        for x in sorted(srcs):
+            t = b.blocks[x]["term"]
+            nm = hir.last(mir.callee_def(t) or mir.callee(t) or "")
+            if nm in ("clone", "clone_from", "to_owned") and t["args"] and mir.is_place_op(t["args"][0]):
+                k = mir.origin_key(b, defs, t["args"][0][1])
+                if k.startswith("arg") and k.split(".")[0][3:].isdigit() and 1 <= int(k.split(".")[0][3:]) <= argc and ("vtable" not in k):
+                    aliases.append(k)
+            if nm in ("new", "with_capacity", "default") and ("ErasedList" in (mir.callee(t) or "") or "Arc" in (mir.callee_def(t) or "") or "RawList" in (mir.callee(t) or "")):
+                makers.append(nm)
+        direct_alias = d[2] == "call" and hir.last(mir.callee_def(d[3]) or "") == "clone"
+        r.inst("returned value #%d" % n, {"line": d[3].get("line"), "made_by": makers, "clone_of_operand": aliases})
+        if (direct_alias and aliases) or (not makers and aliases):
+            r.bad(b.path, "concat returns a clone of an operand", relfile(b.file), d[3].get("line") or b.line,
+                  "ErasedList::concat can return `%s.clone()`: an Arc clone shares storage and mutex with the operand, so a push to the result is a push to the operand (and to every other "
+                  "'result' made the same way) - `base + []` must be a new list like every other sum" % aliases[0])
+    if n == 0:
+        r.missing("the returned value of ErasedList::concat")
+    return r
+
+
 def rules(ctx):
     F = ctx["F"]
     bodies = [b for b in F.all_bodies() if b.mir]
@@ -416,7 +461,7 @@ def rules(ctx):
     rule_m2(F, m2)
     m3 = RuleResult("C16.M3", "RawList's unsafe Send/Sync covers only the owned buffer pointer; ErasedList = Arc<Mutex<RawList>>", floor=5)
     rule_m3(F, m3)
-    return [m1, m2, m3, rule_m4(F), rule_m5(F)] + rule_m6(F)
+    return [m1, m2, m3, rule_m4(F), rule_m5(F)] + rule_m6(F) + [rule_m8(F)]
 
 
 def canary(C):
